@@ -38,7 +38,7 @@ def ACOSH(number):
     number = utils.parse_number(number)
     if isinstance(number, error.XLError):
         return number
-    return math.log(number + math.sqrt(number * number - 1))
+    return math.acosh(number)  # the explicit log/sqrt formula overflowed to inf from 1.3e154 on
 
 
 @dispatcher.register_for('ACOT')
@@ -334,7 +334,7 @@ def RADIANS(number):
     number = utils.parse_number(number)
     if isinstance(number, error.XLError):
         return number
-    return number * math.pi / 180
+    return number * (math.pi / 180)  # number * math.pi could overflow although the result is representable
 
 
 @dispatcher.register_for('DEGREES')
